@@ -29,7 +29,7 @@ def run(ctx):
     driver.run_cases(
         ctx, 'get_fair_states', 'vf.rtc.fair_rtc', 'check_fair_states_case', fs_cases,
         rule='every total relation on <=2 states and %s on 3 states x every list F of <=2 state subsets; seeded random structures <=6 states x '
-             '<=3 random subsets; reference = Emerson-Lei fixpoint (vf/spec/sem.py fair_states); non-trivial = non-empty F; distinct by literal'
+             '<=3 random subsets; structures built with initial states none/first/last/all (fixed per structure, gen.initial_states); reference = Emerson-Lei fixpoint (vf/spec/sem.py fair_states); non-trivial = non-empty F; distinct by literal'
              % ('all' if thorough else '120 sampled'),
         nontrivial='fair_states_nontrivial')
     ctl = gen.levels(gen.ctl_ops(), 2, cap=300, rng=rng)
@@ -49,6 +49,6 @@ def run(ctx):
     driver.run_cases(
         ctx, 'fair-modelcheck', 'vf.rtc.fair_rtc', 'check_fair_mc_case', cases, chunk=4,
         rule='every total structure with <=2 states and %s 3-state structures x F in {None, [], [S], 4 sampled lists of <=2 subsets} x formulas '
-             '(10 CTL, 3 CTL*, 2 LTL): exact fair (CGP) semantics, F=None equals no F, no internal error, structure unmodified; '
+             '(10 CTL, 3 CTL*, 2 LTL), initial states none/first/last/all (fixed per structure): exact fair (CGP) semantics, F=None equals no F, no internal error, structure unmodified; '
              'distinct by (logic, K, F, formula)' % ('400' if thorough else '40'))
     return deductive.level_for(ctx, 'C15'), CMD
